@@ -42,6 +42,8 @@ def snap(o):
         return ("dict", tuple((k, snap(v)) for k, v in o.items()))
     if isinstance(o, (list, tuple)):
         return (type(o).__name__, tuple(snap(v) for v in o))
+    if type(o).__name__ == "ClimatologyConfig":
+        return ("climcfg", snap([tuple(m) for m in o.members]))
     if type(o).__module__.startswith("dask"):
         return ("dask", snap(np.asarray(o)))
     if isinstance(o, float) and o != o:
@@ -64,6 +66,20 @@ def observe(case, carriers, rng):
         f, kw = sut.build_call(case, *carriers)
     except Exception as e:  # noqa: BLE001
         return sut.err_obs(e)
+    if case["fn"] == "climatology" and rng.random() < 0.6:
+        # the documented alternative to a list of mappings: one ClimatologyConfig object, reused across calls
+        cfg = qartod.ClimatologyConfig()
+        for d in kw["config"]:
+            cfg.add(**d)
+        kw["config"] = cfg
+        if rng.random() < 0.5:
+            # history: the same config object was used on OTHER data before this call
+            try:
+                m = len(case["inp"]) + rng.choice([0, 1])
+                call(f, {"config": cfg, "inp": np.arange(m, dtype="float64"), "zinp": np.zeros(m),
+                         "tinp": (np.arange(m, dtype="int64") * 86400 * 37 + 1500000000).astype("datetime64[s]").astype("datetime64[ns]")})
+            except Exception:  # noqa: BLE001
+                pass
     before = snap(kw)
     try:
         r1 = call(f, kw)
@@ -78,6 +94,17 @@ def observe(case, carriers, rng):
     # history: the same call again, then other tests on the very same argument objects, then again
     try:
         r2 = sut.canon_result(call(f, kw))
+        if case["fn"] == "climatology":
+            # the same parameter object on OTHER data (other times, another length) in between
+            try:
+                other = dict(kw)
+                m = len(case["inp"]) + 1
+                other["inp"] = np.arange(m, dtype="float64")
+                other["zinp"] = np.zeros(m)
+                other["tinp"] = (np.arange(m, dtype="int64") * 86400 * 37 + 1500000000).astype("datetime64[s]").astype("datetime64[ns]")
+                call(f, other)
+            except Exception:  # noqa: BLE001
+                pass
         for _ in range(rng.randint(1, 3)):
             which = rng.random()
             try:
